@@ -57,6 +57,7 @@ CLAIMS['C09'] = {
     'text': 'Hand-written convenience rules are proved against K-contracts = the PEG evaluation of their documented expansion: until<C>, until<C,R>, rep<N>, rep_opt<N>, rep_min_max<Min,Max>, if_then_else, strict, star_strict, if_must/opt_must, must (ghost automata over oracle sub-rules, loops closed by loop contracts), and the leaves string, bytes, eolf, eof, bof, bol, everything, success, failure against closed-form byte-level specifications.',
     'note': 'Alias-defined rules (list*, pad*, rep_min, rep_max, minus, star_must, if_must_else, two/three, keyword, identifier, shebang, contrib if_then chains) are compositions of rules under contract: their rule_t is compared by the compiler with the documented expansion (bounded/alias_identity.cpp, 31 type identities, listed with the native stand-ins); rematch (1-3 rules) and contrib rep_one_min_max are under contract too; K-contracts are hand transcriptions of doc/Rule-Reference.md.',
     'design': 'DESIGN.md section 5 C09',
+    'technique': 'contract-based deductive verification: CBMC 6.11 code contracts (goto-instrument --dfcc) on a mechanical C lowering of the instantiated templates; type identities checked by the compiler for the alias-defined rules',
 }
 
 CLAIMS['C13'] = {
